@@ -13,7 +13,8 @@ EXPLANATION = (
     "exit lock) bound to the parameter used as such, initializer/initargs/timeout by field, depth+1, env= (R-ARGS, "
     "R-SPAWN-SITE: respawn and resize cannot differ); init_main_module defaults to False and main-module keys are shipped "
     "and applied only under it (R-MAIN-FLAG); poll maps signalled -> -signal, exited -> status, only for its own child; the "
-    "sentinel has a closing finaliser (R-EXITCODE). Not decided: the descriptor table of a live worker."
+    "sentinel has a closing finaliser (R-EXITCODE); the worker is started with `-m` of this copy's module (R-VENDOR). "
+    "Not decided: the descriptor table of a live worker."
 )
 
 
@@ -26,4 +27,5 @@ def run(e, R, tier):
         T.r_spawn_site,
         P.r_main_flag,
         P.r_exitcode,
+        P.r_vendor,
     ])
